@@ -121,7 +121,7 @@ class Explorer:
     def __init__(self, prog, inline=None, summaries=None, max_depth=4, max_paths=200000,
                  effects=None, distinct_roots=True, loop_bound=2, on_unknown_call=None,
                  nondet_fields=(), field_values=None, merge=False, on_call=None, on_load=None,
-                 symbolic_roots=()):
+                 symbolic_roots=(), symbolic_ranges=None):
         self.prog = prog
         self.inline = inline or (lambda name, fn: False)
         self.summaries = summaries or {}
@@ -143,6 +143,7 @@ class Explorer:
         # integer loads from unknown locations under these roots yield one symbol per location
         # (kept in the store), so that two reads of the same bytes are known to be equal
         self.symbolic_roots = set(symbolic_roots)
+        self.symbolic_ranges = dict(symbolic_ranges or {})   # C type -> assumed (lo, hi) of such loads
         self._nmem = 0
         # merge mode: path states reaching the same block with the same store
         # are explored once; events go to self.event_log instead of per-path
@@ -667,7 +668,8 @@ class Explorer:
                 if loc is not None and loc not in st.store and (loc[0], ("zeroinit",)) in st.store:
                     return INT(0)
                 if loc is not None and loc not in st.store and loc[0] in self.symbolic_roots:
-                    r = TYPE_RANGE.get(n.get("ct") or n.get("t"))
+                    tname = n.get("ct") or n.get("t")
+                    r = self.symbolic_ranges.get(tname) or TYPE_RANGE.get(tname)
                     if r is not None:
                         self._nmem += 1
                         v = self.sym("mem%d:%s" % (self._nmem, f.src(c[0])), r[0], r[1])
